@@ -118,3 +118,20 @@ def run(prog, rep, tier, cfg):
         X.guard('K6b', 'power-memo:%s<=%s' % (a, b), VP, VP.ret_blocks(), m_rel('gt', ['F:Partition.' + a], ['F:Partition.' + b], False), '%s.raw > %s.raw => Err' % (a, b))
     UD = X.fn('deadline_state::Deadlines::update_deadline', CR)
     X.call_guard('K6a', 'update_deadline:validated', UD, UD.ret_blocks(), callee_is('deadline_state::Deadline::validate_state'), 'deadline.validate_state()?')
+
+    # ---- (4) a deadline loaded under index i is stored back under the same i (every load/update pair in the miner)
+    n = 0
+    for f in sorted(prog.fns.values(), key=lambda f: f.id):
+        if f.crate != CR or f.file.endswith('testing.rs') or f.kind in ('promoted', 'const'):
+            continue
+        lds = [c for c in f.calls if callee_is('Deadlines::load_deadline')(c)]
+        ups = [c for c in f.calls if callee_is('Deadlines::update_deadline')(c)]
+        if not lds or not ups:
+            continue
+        n += 1
+        nm = f.id.split('::', 1)[1]
+        X.index_agreement('K10', 'deadline-index:%s' % nm, f, [('load_deadline', c, 2) for c in lds] + [('update_deadline', c, 3) for c in ups],
+                          'the deadline is stored back under the index it was loaded from')
+        for u in ups:
+            rep.need('K10', 'deadline-index:%s:stores-loaded' % nm, has_atom(prog.slicer.operand(f, u.args[4]), 'C:Deadlines::load_deadline'), 'the stored deadline is the loaded one', u.where)
+    rep.floor('K10', 'deadline_load_update_pairs', n, 12)
